@@ -264,9 +264,9 @@ class Credits(Mode):
 
         self._update_credit_strings()
 
-        self._enable_credit_handlers()
-
         # prevent duplicate handlers
+        self._disable_credit_handlers()
+        self._enable_credit_handlers()
         self._remove_event_handlers()
 
         # setup event handlers
